@@ -84,10 +84,8 @@ theorem coh_joint2 {O log start keys m} (h : Coh O log start keys m) (evs : List
   have w2 : m2.w = m.w := by rw [e2]; simp [Mgr.logOp, setBox_w, w1]
   have g2 : ∀ k, m2.getBox k = (m1.setBox k2 (sstep (cfgOf O log k2) b2 op2).1).getBox k := by
     intro k; rw [e2]; rfl
-  have hbr1 : b1 = (replay O log start m.ops k1).1 := by
-    have := h.box k1 hk1; rw [hb1] at this; exact Option.some.inj this
-  have hbr2 : b2 = (replay O log start m.ops k2).1 := by
-    have := h.box k2 hk2; rw [hb2] at this; exact Option.some.inj this
+  have hbr1 : b1 = (replay O log start m.ops k1).1 := h.box_some k1 hk1 b1 hb1
+  have hbr2 : b2 = (replay O log start m.ops k2).1 := h.box_some k2 hk2 b2 hb2
   -- replay of the extended op list
   have rp : ∀ k, replay O log start (m.ops ++ [(k1, op1)] ++ [(k2, op2)]) k =
       if k = k1 then ((sstep (cfgOf O log k1) b1 op1).1, (replay O log start m.ops k1).2 ++ (sstep (cfgOf O log k1) b1 op1).2)
@@ -107,12 +105,15 @@ theorem coh_joint2 {O log start keys m} (h : Coh O log start keys m) (evs : List
     rw [ops2, rp, g2]
     by_cases h2 : k = k2
     · subst h2
+      left
       rw [getBox_setBox_same _ _ _ _ hb2', if_neg (fun h => hne h.symm), if_pos rfl]
     · rw [getBox_setBox_other _ _ _ _ h2, g1]
       by_cases h1 : k = k1
       · subst h1
+        left
         rw [getBox_setBox_same _ _ _ _ hb1, if_pos rfl]
-      · rw [getBox_setBox_other _ _ _ _ h1, if_neg h1, if_neg h2]
+      · rw [getBox_setBox_other _ _ _ _ h1, if_neg h1, if_neg h2, opsOf_snoc, if_neg (fun h => h2 h.symm),
+          opsOf_snoc, if_neg (fun h => h1 h.symm)]
         exact h.box k hk
   · intro k hk
     rw [tr2, ops2, rp, projSeq_append, h.tr k hk, hproj k hk]
@@ -226,14 +227,19 @@ theorem diffBranch_eq (O : Orders) (hO : GoodOrders O) (slice : Bool) (msgs enc 
     rw [hO.diffSetState, shape_pts_diff.2.1, shape_pts_diff.2.2.2]
 
 theorem minv_world {O log keys org start m} (h : MInv O log keys org start m) (w : World)
-    (hl : w.log = m.w.log) (hp : w.p0 = m.w.p0) (hq : w.q0 = m.w.q0) (hc : w.c0 = m.w.c0) :
-    MInv O log keys org start { m with w := w } := by
+    (hs : w.static = m.w.static) : MInv O log keys org start { m with w := w } := by
+  simp only [World.static, Prod.mk.injEq] at hs
+  obtain ⟨hl, hp, hq, hc, hpe, hcr⟩ := hs
   refine ⟨coh_world h.coh w (by rw [hl]; exact h.coh.hlog), by rw [← h.p0]; exact hp, by rw [← h.q0]; exact hq, ?_,
-    h.queues, h.internal⟩
-  intro c hk
-  rw [← h.c0 c hk]
-  show World.chanInit w c = World.chanInit m.w c
-  unfold World.chanInit; rw [hc]
+    h.queues, h.internal, ?_, ?_⟩
+  · intro c hk
+    rw [← h.c0 c hk]
+    show World.chanInit w c = World.chanInit m.w c
+    unfold World.chanInit; rw [hc]
+  · intro c sp hsp
+    exact h.startP c sp (by rw [← hpe]; exact hsp)
+  · intro c d hsp hd
+    exact h.startC c d (by rw [← hpe]; exact hsp) (by rw [← hcr]; exact hd)
 
 theorem neutral_api (log : List Entry) (keys : List Nat) (p q : Int) : Neutral log keys [.apiDiff p q] := by
   intro k _; simp [projSeq]
@@ -329,7 +335,7 @@ theorem minv_diffJoint {O log keys org start m} (hO : GoodOrders O) (hS : Scn lo
   have hw1 : wfOp (seqLog log 0) (mkOf log) m.pts
       (.seq diffShape p ((msgs ++ others.filter ownCommon).filter (·.seqKey == some 0))) = true := by
     simp only [wfOp, Bool.and_eq_true, Bool.or_eq_true, List.all_eq_true, decide_eq_true_eq, Bool.not_eq_true']
-    refine ⟨fun e he => hp.2 e he, Or.inl (Or.inl (Or.inl ⟨trivial, ?_⟩))⟩
+    refine ⟨fun e he => hp.2 e he, Or.inl (Or.inl (Or.inl (Or.inl ⟨trivial, ?_⟩)))⟩
     intro e he
     by_cases hr : m.pts.state < e.pos ∧ e.pos ≤ p
     · rcases hp.1 e he hr.1 hr.2 with h' | h'
@@ -343,7 +349,7 @@ theorem minv_diffJoint {O log keys org start m} (hO : GoodOrders O) (hS : Scn lo
   have hw2 : wfOp (seqLog log 1) (mkOf log) m.qts
       (.seq diffShape q ((enc ++ others.filter ownCommon).filter (·.seqKey == some 1))) = true := by
     simp only [wfOp, Bool.and_eq_true, Bool.or_eq_true, List.all_eq_true, decide_eq_true_eq, Bool.not_eq_true']
-    refine ⟨fun e he => hq.2 e he, Or.inl (Or.inl (Or.inl ⟨trivial, ?_⟩))⟩
+    refine ⟨fun e he => hq.2 e he, Or.inl (Or.inl (Or.inl (Or.inl ⟨trivial, ?_⟩)))⟩
     intro e he
     by_cases hr : m.qts.state < e.pos ∧ e.pos ≤ q
     · rcases hq.1 e he hr.1 hr.2 with h' | h'
@@ -381,12 +387,14 @@ theorem minv_diffJoint {O log keys org start m} (hO : GoodOrders O) (hS : Scn lo
         · subst h1
           simp only [h0, if_false, if_true, sstep, callEvs_diffShape, f1]
         · rw [fk k h0 h1]; simp [h0, h1])
-  refine ⟨hcoh, ?_, ?_, ?_, ?_, ?_⟩
+  refine ⟨hcoh, ?_, ?_, ?_, ?_, ?_, ?_, ?_⟩
   · rw [seqOpQuiet_w, seqOpQuiet_w]; exact h.p0
   · rw [seqOpQuiet_w, seqOpQuiet_w]; exact h.q0
   · intro c hc; rw [seqOpQuiet_w, seqOpQuiet_w]; exact h.c0 c hc
   · rw [seqOpQuiet_queues, seqOpQuiet_queues]; exact h.queues
   · rw [seqOpQuiet_internal, seqOpQuiet_internal]; exact h.internal
+  · rw [seqOpQuiet_w, seqOpQuiet_w]; exact h.startP
+  · rw [seqOpQuiet_w, seqOpQuiet_w]; exact h.startC
 
 /-- One common difference answer of kind `diff`, applied: foreign other-updates are re-routed
 (they do not touch the pts/qts boxes), then the joint step. -/
